@@ -174,6 +174,14 @@ func init() {
 			}
 			return []Val{v}
 		}
+		L["(*regexp.Regexp).FindAllStringSubmatch"] = func(s *State, site ssa.Instruction, a []Val) []Val {
+			pat, known := e.regexpPattern(callArg(site, 0))
+			if known && pat == expandPattern {
+				return []Val{s.libExpand(site, a[1])}
+			}
+			s.used("regexp (pattern not tabled): FindAllStringSubmatch yields an unconstrained list")
+			return []Val{s.freshVal(site.(ssa.CallInstruction).Common().Signature().Results().At(0).Type(), "allmatches")}
+		}
 		L["(*regexp.Regexp).ReplaceAllString"] = func(s *State, site ssa.Instruction, a []Val) []Val {
 			r := s.freshStr("replaced")
 			if pat, ok := e.regexpPattern(callArg(site, 0)); ok && pat == "[ \\t\\n\\r]+" {
